@@ -6,6 +6,13 @@ ids = [p['id'] for p in props]
 
 # id -> (level, technique, text, note)
 CLAIMED = {
+ "C05": ("exploration", "rewrite-family monitor with a definitional nested-loop model (3VL) and join-algorithm probes",
+         "Members of four rewrite families (inner join, semi join, NULL-aware anti join, plain anti join; table order, join syntax, IN/EXISTS/ANY/NOT IN/NOT EXISTS/LEFT JOIN IS NULL forms, derived-table wrapping) are each compared with the harness's nested evaluation over the inserted rows.",
+         "Model covers equi-join keys on INTEGER columns with an optional local predicate."),
+ "C32": ("exploration", "twin monitor: the same outer query through a view, through a CTE and with the definition inlined, across DML rounds",
+         "View and CTE references are compared with the inlined derived table for four definition kinds and six outer shapes, before and after INSERT/UPDATE/DELETE on the base tables.",
+         "The inlined form is the oracle."),
+
  "C08": ("exploration", "independent sort/slice oracle in the harness over the engine's own unordered result, with and without usable indexes",
          "The harness sorts the unordered rows (keys appended as output columns) with the documented rule and checks sortedness, slice bounds, key sequence, membership and permutation of every ORDER BY / LIMIT / OFFSET statement, plus DISTINCT exactly-once and DISTINCT-before-LIMIT.",
          "NULLs last for ASC and DESC is taken as the documented rule; tie-group internal order is free."),
